@@ -3913,6 +3913,10 @@ def _dSIS_effective_degree_(X, t, original_shape, tau, gamma):
                 for s in range(original_shape[0])])
     SI = sum([sum([i*Ssi[s,i] for i in range(original_shape[1])]) 
                 for s in range(original_shape[0])])
+    if SS == 0: #avoid division by 0.  This is okay since then every
+        SS = 1  #term that is divided by SS (they carry a factor s*Ssi) is 0.
+    if SI == 0: #likewise ISI = 0 if there are no SI pairs.
+        SI = 1
 
     g1 = np.zeros(original_shape)
     g2 = np.zeros(original_shape)
@@ -3958,6 +3962,8 @@ def _dSIR_effective_degree_(X, t, N, original_shape, tau, gamma):
                 for s in range(original_shape[0])])
     SS = sum([sum([s*Ssi[s,i] for i in range(original_shape[1])]) 
                 for s in range(original_shape[0])])
+    if SS == 0: #avoid division by 0.  This is okay since then every
+        SS = 1  #term that is divided by SS (they carry a factor s*Ssi) is 0.
     
     #commenting out commands for vectorizing this.  
     #I should do this eventually, but not now.  Apply to SIS version as well.
@@ -4352,7 +4358,10 @@ def _dSIR_compact_effective_degree_(X, t, N, tau, gamma):
     R, SI = X[-2:]
     I = N- R- Skappa.sum()
     kappas = np.arange(len(Skappa))
-    effectiveI = float(SI) /Skappa.dot(kappas)
+    SX = Skappa.dot(kappas)
+    if SX == 0: #avoid division by 0.  This is okay since then there are no 
+        SX = 1  #SI pairs either (SI=0) and all the terms it scales are 0.
+    effectiveI = float(SI) /SX
     dSkappa = effectiveI*(-(tau+gamma)*kappas*Skappa \
                 + gamma*shift(kappas*Skappa,-1))
     dSI = -(tau+gamma)*SI \
